@@ -44,7 +44,7 @@ type Env struct {
 	Plan  *Plan
 	start time.Time
 
-	mu       sync.Mutex
+	mu       HMutex
 	events   []Event
 	viol     []Violation
 	stats    Stats
@@ -59,8 +59,9 @@ type Env struct {
 	lastFlt  int64 // fake time of the last fault fired
 	onEnd    []func()
 	tasks    sync.WaitGroup
-	pending  map[int]string // op invocations not yet returned
+	pending  []string // op invocations not yet returned ("" = returned), by id-1
 	opSeq    int
+	yieldSeq int // race build: the global yield counter that stands in for per-site hit counts
 	shape    []string
 	Sample   any
 	nontriv  bool
@@ -95,6 +96,7 @@ func (e *Env) Now() int64 { return int64(time.Since(e.start)) }
 
 // Log appends to the in-memory history. It never yields, never draws
 // randomness and never reads a real clock.
+//go:norace
 func (e *Env) Log(actor int, kind, format string, a ...any) {
 	msg := format
 	if len(a) > 0 {
@@ -108,12 +110,14 @@ func (e *Env) Log(actor int, kind, format string, a ...any) {
 
 // Shape adds a time-free token to the canonical shape of the run (used to count
 // distinct interleavings reached).
+//go:norace
 func (e *Env) Shape(tok string) {
 	e.mu.Lock()
 	e.shape = append(e.shape, tok)
 	e.mu.Unlock()
 }
 
+//go:norace
 func (e *Env) Violate(class, sig, format string, a ...any) {
 	d := fmt.Sprintf(format, a...)
 	t := e.Now()
@@ -123,13 +127,18 @@ func (e *Env) Violate(class, sig, format string, a ...any) {
 	e.mu.Unlock()
 }
 
+//go:norace
 func (e *Env) Violated() bool {
 	e.mu.Lock()
 	defer e.mu.Unlock()
 	return len(e.viol) > 0
 }
 
+//go:norace
 func (e *Env) Probe(name string) {
+	if RaceBuild {
+		return // a map shared by all tasks: left alone in the race build
+	}
 	e.mu.Lock()
 	if e.stats.Probes == nil {
 		e.stats.Probes = map[string]int{}
@@ -138,12 +147,14 @@ func (e *Env) Probe(name string) {
 	e.mu.Unlock()
 }
 
+//go:norace
 func (e *Env) ProbeCount(name string) int {
 	e.mu.Lock()
 	defer e.mu.Unlock()
 	return e.stats.Probes[name]
 }
 
+//go:norace
 func (e *Env) FaultFired(kind string) {
 	t := e.Now()
 	e.mu.Lock()
@@ -155,18 +166,24 @@ func (e *Env) FaultFired(kind string) {
 	e.mu.Unlock()
 }
 
+//go:norace
 func (e *Env) FaultCount(kind string) int {
 	e.mu.Lock()
 	defer e.mu.Unlock()
 	return e.stats.Faults[kind]
 }
 
+//go:norace
 func (e *Env) Check()        { e.mu.Lock(); e.stats.Checks++; e.mu.Unlock() }
+//go:norace
 func (e *Env) ChecksN(n int) { e.mu.Lock(); e.stats.Checks += n; e.mu.Unlock() }
+//go:norace
 func (e *Env) Inconclusive() { e.mu.Lock(); e.stats.Inconclusive++; e.mu.Unlock() }
+//go:norace
 func (e *Env) NonTrivial()   { e.mu.Lock(); e.nontriv = true; e.mu.Unlock() }
 
 // LastDisturbance is the fake time at which the last stall ended or fault fired.
+//go:norace
 func (e *Env) LastDisturbance() int64 {
 	e.mu.Lock()
 	defer e.mu.Unlock()
@@ -178,6 +195,7 @@ func (e *Env) LastDisturbance() int64 {
 
 // StallsOverlapping sums the durations of injected stalls that overlap the
 // fake-time window [from, to]: the slack an oracle grants a latency bound.
+//go:norace
 func (e *Env) StallsOverlapping(from, to int64) int64 {
 	e.mu.Lock()
 	defer e.mu.Unlock()
@@ -190,10 +208,12 @@ func (e *Env) StallsOverlapping(from, to int64) int64 {
 	return sum
 }
 
+//go:norace
 func (e *Env) StallTotal() int64 { e.mu.Lock(); defer e.mu.Unlock(); return e.stats.StallNs }
 
 // StopStalls turns the yield oracle off (used for the fault-free tail of a run
 // in which liveness is asserted).
+//go:norace
 func (e *Env) StopStalls() { e.mu.Lock(); e.stallOff = true; e.mu.Unlock() }
 
 // Go starts a simulated task.
@@ -214,15 +234,13 @@ func (e *Env) SleepUntil(at int64) {
 
 // Invoke / Return bracket a public-API call made by an actor, for the
 // "operation never returned" watchdog and for linearizability stamps.
+//go:norace
 func (e *Env) Invoke(actor int, what string) (id int, seq int) {
 	t := e.Now()
 	e.mu.Lock()
 	e.opSeq++
 	id = e.opSeq
-	if e.pending == nil {
-		e.pending = map[int]string{}
-	}
-	e.pending[id] = fmt.Sprintf("actor=%d %s (invoked t=%d)", actor, what, t)
+	e.pending = append(e.pending, fmt.Sprintf("actor=%d %s (invoked t=%d)", actor, what, t))
 	seq = len(e.events)
 	e.events = append(e.events, Event{Seq: seq, T: t, Kind: "invoke", Actor: actor, Msg: what})
 	e.stats.OpsRun++
@@ -230,10 +248,13 @@ func (e *Env) Invoke(actor int, what string) (id int, seq int) {
 	return
 }
 
+//go:norace
 func (e *Env) Return(actor, id int, what string) (seq int) {
 	t := e.Now()
 	e.mu.Lock()
-	delete(e.pending, id)
+	if id >= 1 && id <= len(e.pending) {
+		e.pending[id-1] = ""
+	}
 	seq = len(e.events)
 	e.events = append(e.events, Event{Seq: seq, T: t, Kind: "return", Actor: actor, Msg: what})
 	e.mu.Unlock()
@@ -241,14 +262,15 @@ func (e *Env) Return(actor, id int, what string) (seq int) {
 }
 
 // ReturnSeq logs a return event without touching the pending table (for operations bracketed by the rig itself).
+//go:norace
 func (e *Env) ReturnSeq(actor int, what string) (seq int) {
 	t := e.Now()
 	e.mu.Lock()
 	seq = len(e.events)
 	e.events = append(e.events, Event{Seq: seq, T: t, Kind: "return", Actor: actor, Msg: what})
-	for id, s := range e.pending {
-		if strings.HasPrefix(s, fmt.Sprintf("actor=%d %s ", actor, what)) {
-			delete(e.pending, id)
+	for i, s := range e.pending {
+		if s != "" && strings.HasPrefix(s, fmt.Sprintf("actor=%d %s ", actor, what)) {
+			e.pending[i] = ""
 			break
 		}
 	}
@@ -257,12 +279,13 @@ func (e *Env) ReturnSeq(actor int, what string) (seq int) {
 }
 
 // Pending lists API calls that have not returned.
+//go:norace
 func (e *Env) Pending() []string {
 	e.mu.Lock()
 	defer e.mu.Unlock()
 	var out []string
-	for id := 1; id <= e.opSeq; id++ {
-		if s, ok := e.pending[id]; ok {
+	for _, s := range e.pending {
+		if s != "" {
 			out = append(out, s)
 		}
 	}
@@ -296,6 +319,10 @@ func (e *Env) siteEnabled(site string) bool {
 
 // yield is the lockshim hook: the simulator's scheduling decision point.
 func (e *Env) yield(op deadlock.Op, lock unsafe.Pointer, pc uintptr) {
+	if RaceBuild {
+		e.yieldRace(op, pc)
+		return
+	}
 	site := siteOf(pc)
 	if op == deadlock.OpUnlock || op == deadlock.OpRUnlock {
 		site += "+u"
@@ -363,6 +390,96 @@ func (e *Env) yield(op deadlock.Op, lock unsafe.Pointer, pc uintptr) {
 	}
 }
 
+// yieldRace is the yield oracle of the race build: the same decision rule, keyed by the call site's
+// pc and a global yield counter instead of per-site hit counts, and without any shared map, mutex or
+// atomic (see RaceBuild). The site's name is only computed when a stall actually fires.
+//
+//go:norace
+func (e *Env) yieldRace(op deadlock.Op, pc uintptr) {
+	n := e.yieldSeq
+	e.yieldSeq++
+	e.stats.Yields++
+	if e.stallOff {
+		return
+	}
+	sc := &e.Plan.Stall
+	u := uint64(0)
+	if op == deadlock.OpUnlock || op == deadlock.OpRUnlock {
+		u = 1
+	}
+	var ns int64
+	var site string
+	if sc.UseExplicit {
+		if len(e.explicit) == 0 {
+			return
+		}
+		site = raceSite(pc, u)
+		ns = e.explicit[fmt.Sprintf("%s#%d", site, n)]
+	} else {
+		if sc.RatePPM == 0 || e.stats.StallNs >= sc.BudgetNs {
+			return
+		}
+		h := h2(h2(sc.Seed, uint64(pc)<<1|u), uint64(n))
+		if int(h%1000000) >= sc.RatePPM {
+			return
+		}
+		site = raceSite(pc, u)
+		on := true
+		if len(sc.Focus) > 0 {
+			on = false
+			for _, f := range sc.Focus {
+				if strings.Contains(site, f) {
+					on = true
+					break
+				}
+			}
+		}
+		if on && sc.SitePct < 100 {
+			on = int(h2(sc.Seed, HashStr(site))%100) < sc.SitePct
+		}
+		if !on {
+			return
+		}
+		h = mix(h)
+		if h%4 < 2 || sc.MaxNs <= 1 {
+			ns = 1
+		} else {
+			bits := 1
+			for v := sc.MaxNs; v > 1; v >>= 1 {
+				bits++
+			}
+			b := uint(mix(h+1) % uint64(bits))
+			ns = int64(1)<<b + int64(mix(h+2)%uint64(int64(1)<<b))
+			if ns > sc.MaxNs {
+				ns = sc.MaxNs
+			}
+		}
+	}
+	if ns <= 0 {
+		return
+	}
+	e.stats.Stalls++
+	e.stats.StallNs += ns
+	now := int64(time.Since(e.start))
+	e.fired = append(e.fired, StallPoint{Site: site, Hit: n, Ns: ns, At: now})
+	e.events = append(e.events, Event{Seq: len(e.events), T: now, Kind: "stall", Actor: -2, Msg: fmt.Sprintf("%s#%d %dns", site, n, ns)})
+	time.Sleep(time.Duration(ns))
+	if t := e.Now(); t > e.lastStal {
+		e.lastStal = t
+	}
+}
+
+func raceSite(pc uintptr, u uint64) string {
+	s := deadlock.Site(pc)
+	if i := strings.Index(s, RepoPrefix); i >= 0 {
+		s = s[i+len(RepoPrefix):]
+	}
+	if u == 1 {
+		s += "+u"
+	}
+	return s
+}
+
 // OnEnd registers a function to run after the bubble has ended (outside it).
 func (e *Env) OnEnd(f func()) { e.onEnd = append(e.onEnd, f) }
 
@@ -399,6 +516,7 @@ func Run(plan *Plan, opts RunOpts, body func(e *Env)) (res *Result) {
 	runtime.GC() // the only collection point: between runs (GOGC=off in workers)
 	deadlock.NewEpoch()
 	deadlock.Hook = e.yield
+	deadlock.Track = !RaceBuild // the registries are a global mutex: see RaceBuild
 	crand.Reader = stream{NewRand(plan.Seed).Fork("crypto")}
 	wall := time.Now()
 	dstSimSeed(mix(plan.Seed^0x5eed), true)
@@ -514,8 +632,8 @@ func HeldLocks() []string {
 
 func pendingOf(e *Env) []string {
 	var out []string
-	for id := 1; id <= e.opSeq; id++ {
-		if s, ok := e.pending[id]; ok {
+	for _, s := range e.pending {
+		if s != "" {
 			out = append(out, s)
 		}
 	}
